@@ -16,6 +16,12 @@ CHECKS = {
         note="Value alphabet: 6 variable definitions (3 tables rotated by VERIF_SEED); at most 3 variables alive; depth bound as reported in the evidence; states are merged on a canonical form that includes the name-mangled caches.",
         technique="explicit-state BFS over operation histories of the real object (bounded depth), invariant checked in every state",
     ),
+    "C12": dict(
+        engine="E4-crash", category="fault_enumeration",
+        text="For every configuration (MDO DisciplinaryOpt with SLSQP and with COBYLA, MDO MDF with SLSQP, DOE full-factorial / custom samples on one discipline and on an MDF system) x backup at each function call / each iteration x normalized or not x counter kept or reset, an uninterrupted reference run is logged; then the process is really killed (os._exit) inside EVERY discipline execution k = 1..K of the run, the backup file is loaded and compared with the reference snapshot taken at the last backup event before execution k, a fresh process restarts with load=True and is checked for rework, kept entries, optimum and (exact-replay configurations) equality with the uninterrupted history; for small runs every second crash point of the restart is enumerated too (file already containing earlier data).",
+        note="Crash = process death inside a discipline execution (no HDF5 write in progress); torn HDF5 writes are not enumerated; a re-execution at a backed-up point is accepted when it adds an output the backup lacked there; MDF histories are compared within the MDA tolerance.",
+        technique="exhaustive crash-point enumeration by real process death (fork per crash point), reference-log oracle",
+    ),
     "C13": dict(
         engine="E3-sched+E5-tlc", category="model_checking",
         text="(A) every schedule - all of them for N<=2 tasks on one worker, deviation-bounded otherwise - of the real thread back-end of CallableParallelExecution under a cooperative scheduler that owns every queue/thread/lock operation, for task counts 0-3(4), worker counts 1-3, all failing subsets and re-raise settings, with the positional / exactly-once / confinement oracle; (M) TLC enumerates the complete state graph of models/WorkerPool.tla per configuration, every terminal behaviour is replayed on the real thread back-end by guided scheduling and every completion order is forced on the real process back-end through gates; every trace the code produces must be a model behaviour and for the completely explored configurations the two trace sets must be equal; (B) MDOParallelChain, DiscParallelExecution/Linearization with failing disciplines, two disciplines sharing a MemoryFullCache (virtual lock) under all schedules with <= d deviations, parallel finite differences and parallel DOE under every forced completion order, against their sequential twins.",
